@@ -8,7 +8,7 @@ pub fn run(ctx: &mut RunCtx) {
     let mut p = Profile::base();
     p.ops = ctx.tier.pick(2..40, 2..60);
     p.ws = 1..9;
-    let cases = ctx.tier.pick(3000, 150_000);
+    let cases = ctx.tier.pick(24_000, 150_000);
     let test = |ops: &Vec<Op>, obs: &mut Obs| {
         let dir = crate::engine::temp_dir();
         let mut r = Runner::new(dir.join("db"), Excl::default())?;
